@@ -1,4 +1,4 @@
-import Driver.Bytes
+import Driver.Emplace
 open FV Drv
 
 partial def loop (h : IO.FS.Stream) (out : IO.FS.Stream) (types : Array Ty) : IO Unit := do
@@ -22,6 +22,33 @@ partial def loop (h : IO.FS.Stream) (out : IO.FS.Stream) (types : Array Ty) : IO
   | ["B", tid, _place, a16, p, sfx, hx] =>
     let t := types[tid.toNat!]?.getD (.prim 0 1)
     let r := runB t a16.toNat! (p == "P1") (if sfx == "-" then none else some (parseHex sfx)) (parseHex hx)
+    out.putStrLn r
+    loop h out types
+  | "E" :: tid :: _place :: a16 :: "new" :: rest =>
+    let t := types[tid.toNat!]?.getD (.prim 0 1)
+    let pre := parseHex (rest.getLast?.getD "-")
+    let r := match parseInit (tokenize (" ".intercalate rest.dropLast)) with
+      | some (i, []) => runE t a16.toNat! i pre true
+      | _ => "BAD-INIT"
+    out.putStrLn r
+    loop h out types
+  | "F" :: tid :: _place :: a16 :: rest =>
+    let t := types[tid.toNat!]?.getD (.prim 0 1)
+    let pre := parseHex (rest.getLast?.getD "-")
+    let r := match parseInit (tokenize (" ".intercalate rest.dropLast)) with
+      | some (i, []) => runE t a16.toNat! i pre false
+      | _ => "BAD-INIT"
+    out.putStrLn r
+    loop h out types
+  | "A" :: tid :: _place :: a16 :: rest =>
+    let t := types[tid.toNat!]?.getD (.prim 0 1)
+    let pre := parseHex (rest.getLast?.getD "-")
+    let r := match parseInit (tokenize (" ".intercalate rest.dropLast)) with
+      | some (i1, r2) =>
+        match parseInit r2 with
+        | some (i2, []) => runA t a16.toNat! i1 i2 pre
+        | _ => "BAD-INIT"
+      | _ => "BAD-INIT"
     out.putStrLn r
     loop h out types
   | _ =>
